@@ -81,6 +81,9 @@ func Decode(b []byte, typeMap map[string]reflect.Type) (r DecRes) {
 	}()
 	r.Consumed = rd.Pos
 	r.Calls = rd.Calls
+	if rd.Tripped {
+		r.Runaway = true
+	}
 	return
 }
 
